@@ -329,3 +329,61 @@ func init() {
 		return hit
 	}
 }
+
+func init() {
+	// While the index was disabled the history was changed (rollback and/or commits); later an instance with the
+	// index enabled finds a label that names the current latest version and does not rebuild the index.
+	matchers["c07_label_matches_after_recommit_without_index"] = func(c *MatchCtx) bool {
+		fast := c.Cfg.Fast
+		label := int64(-1)
+		stale := false // the history changed while the index was disabled since the label was written
+		hit := false
+		modelTraceFrom(c.Base, c.Cfg, c.Hist, func(i int, m *Model, op Op) {
+			open := func(target int64) {
+				if !fast || m.Latest == 0 {
+					return
+				}
+				if label == m.Latest && stale {
+					hit = true
+				}
+				if label != m.Latest {
+					label, stale = m.Latest, false
+				}
+				_ = target
+			}
+			switch op.Kind {
+			case OpSave, OpSaveCS:
+				if m.Has(m.WorkingVersion()) {
+					return
+				}
+				if fast {
+					label, stale = m.WorkingVersion(), false
+				} else {
+					stale = true
+				}
+			case OpReopen:
+				fast = op.Fast
+				open(op.Ver)
+			case OpLoadVersion:
+				if m.Has(op.Ver) || op.Ver <= 0 {
+					open(op.Ver)
+				}
+			case OpLVFO, OpDelFrom:
+				if m.Has(op.Ver) && op.Ver < m.Latest {
+					if fast {
+						label, stale = op.Ver, false
+					} else {
+						stale = true
+					}
+				}
+			case OpImport:
+				if fast {
+					label, stale = op.Ver, false
+				} else {
+					label, stale = -1, false
+				}
+			}
+		})
+		return hit
+	}
+}
